@@ -449,12 +449,13 @@ type ConcOrigin struct {
 	fixed  map[string]Behaviour
 	script map[string][]Behaviour
 	hits   map[string]int
+	served map[string][]time.Time // per path: when the i-th scripted answer since SetScript was handed out
 	dyn    map[string]func(body []byte) []byte
 	Log    *concFetchLog
 }
 
 func NewConcOrigin() *ConcOrigin {
-	o := &ConcOrigin{fixed: map[string]Behaviour{}, script: map[string][]Behaviour{}, hits: map[string]int{}, dyn: map[string]func([]byte) []byte{}, Log: newConcFetchLog()}
+	o := &ConcOrigin{fixed: map[string]Behaviour{}, script: map[string][]Behaviour{}, hits: map[string]int{}, served: map[string][]time.Time{}, dyn: map[string]func([]byte) []byte{}, Log: newConcFetchLog()}
 	o.srv = httptest.NewServer(http.HandlerFunc(o.handle))
 	return o
 }
@@ -472,6 +473,7 @@ func (o *ConcOrigin) handle(w http.ResponseWriter, r *http.Request) {
 			k = len(s) - 1
 		}
 		b, ok = s[k], true
+		o.served[p] = append(o.served[p], time.Now())
 	}
 	o.mu.Unlock()
 	if dyn != nil {
@@ -519,7 +521,18 @@ func (o *ConcOrigin) SetScript(path string, s []Behaviour) {
 	o.mu.Lock()
 	o.script[path] = s
 	o.hits[path] = 0
+	o.served[path] = nil
 	o.mu.Unlock()
+}
+
+// ScriptServed: the instants at which the answers of the current script of path were handed out (the i-th element
+// belongs to script[i], or to the last element once the script is used up). Taken under the same lock that picks the
+// answer, so "the acceptable answer had been handed out before t" is a statement about the script, not about a
+// request counter read at some other moment.
+func (o *ConcOrigin) ScriptServed(path string) []time.Time {
+	o.mu.Lock()
+	defer o.mu.Unlock()
+	return append([]time.Time{}, o.served[path]...)
 }
 
 func (o *ConcOrigin) Hits(path string) int   { return len(o.Log.times(path)) }
